@@ -20,8 +20,8 @@ RULE = (
     "class / class with asend+athrow / a list / a one-shot sync iterator / a __getitem__ sequence) of 0-8 items is opened with scoped_iter, nested up to depth 3 "
     "(inner scopes over the outer handle, generated entry/exit positions); inside, up to 20 operations from "
     "{next / asend on the handle of any open level, next / asend on a handle whose scope ended, aclose that handle, hand it to one of 26 tools taking j items and "
-    "closing or abandoning the tool, next on a handle whose scope already ended}. Exit mode: fall-through, or an "
-    "exception raised at a generated operation; additionally EVERY suspension point of the fall-through run is "
+    "closing or abandoning the tool, next on a handle whose scope already ended, an (erroneous) second __aenter__ of an active scope object}. Exit mode: fall-through, or an "
+    "exception (an error, GeneratorExit, KeyboardInterrupt, StopAsyncIteration or asyncio.CancelledError) raised at a generated operation; additionally EVERY suspension point of the fall-through run is "
     "cancelled in a separate run (sources suspend). Model: one shared synchronous iterator with the stdlib tools. "
     "Oracle: every item obtained in the block is next(model) (identity) so each tool sees what follows; aclose of "
     "a scoped handle changes nothing; the underlying is never closed inside the block and exactly once (released) "
@@ -53,11 +53,15 @@ def programs(draw, tier):
         st.tuples(st.just("next-dead")),
         st.tuples(st.just("asend-dead")),
         st.tuples(st.just("asend"), st.integers(0, 2)),
+        st.tuples(st.just("reenter"), st.integers(0, 2)),
     )
     ops = [list(o) for o in draw(st.lists(op, max_size=20))]
     raise_at = draw(st.one_of(st.none(), st.none(), st.integers(0, 20)))
     return {"items": items, "kind": draw(st.sampled_from(["agen", "aclass", "aplain", "send", "list", "iter", "seq"])),
             "susp": draw(st.integers(0, 1)), "ops": ops, "raise_at": raise_at,
+            # what leaves the block at raise_at: an ordinary error, or what a generator / task shutdown delivers
+            "exit_exc": draw(st.sampled_from(["Fault", "Fault", "GeneratorExit", "KeyboardInterrupt",
+                                              "StopAsyncIteration", "CancelledError"])),
             "mode": draw(st.sampled_from(["hooks", "bare"]))}
 
 
@@ -78,7 +82,11 @@ def run_program(case, cancel_at=None):
     observable = kind not in ("list", "iter", "seq")  # sync iterables are wrapped by the library itself
     model = iter(list(items))
     problems = []
-    planned = Fault("planned-block-exception")
+    import asyncio
+
+    planned = {"Fault": Fault, "GeneratorExit": GeneratorExit, "KeyboardInterrupt": KeyboardInterrupt,
+               "StopAsyncIteration": StopAsyncIteration,
+               "CancelledError": asyncio.CancelledError}[case.get("exit_exc", "Fault")]("planned-block-exception")
     cancel = Cancel("cancel") if cancel_at else None
     dead = []  # handles whose scope has ended
 
@@ -151,9 +159,11 @@ def run_program(case, cancel_at=None):
     pos = [0]
     ops = case["ops"]
 
-    async def block(base, depth, stack):
-        async with a.scoped_iter(base) as h:
+    async def block(base, depth, stack, scopes=()):
+        scope = a.scoped_iter(base)
+        async with scope as h:
             stack = stack + [h]
+            scopes = scopes + (scope,)
             while pos[0] < len(ops):
                 i = pos[0]
                 op = ops[i]
@@ -163,7 +173,7 @@ def run_program(case, cancel_at=None):
                 name = op[0]
                 if name == "enter":
                     if depth < 3:
-                        await block(h, depth + 1, stack)
+                        await block(h, depth + 1, stack, scopes)
                         # the inner handle is dead now, outer ones are not
                 elif name == "exit":
                     if depth > 1:
@@ -182,6 +192,13 @@ def run_program(case, cancel_at=None):
                         await take(target, live=True, via="asend")
                     elif name == "close":
                         await target.aclose()
+                    elif name == "reenter":
+                        # misuse: entering a scope object that is already active; whether or not that is
+                        # refused, the scope that IS active must be unaffected
+                        try:
+                            await scopes[op[1] % len(scopes)].__aenter__()
+                        except Exception:
+                            pass
                     elif name == "tool":
                         await apply_tool(target, op[2], op[3], op[4], op[5])
                 if closed_now():
